@@ -147,6 +147,7 @@ type Engine struct {
 	shared         sync.Map // *ssa.Package -> *sharedPkg
 	SharedInitPkgs map[string]bool
 	FreshInitPkgs  map[string]bool
+	NoopFuncs      map[string]bool
 	Seed           int64
 	sampled        sync.Map
 }
@@ -162,6 +163,7 @@ func NewEngine(prog *ssa.Program) *Engine {
 		SkipInitPkgs:   map[string]bool{},
 		SharedInitPkgs: map[string]bool{},
 		FreshInitPkgs:  map[string]bool{},
+		NoopFuncs:      map[string]bool{},
 	}
 	if rt := prog.ImportedPackage("runtime"); rt != nil {
 		if t := rt.Type("errorString"); t != nil {
